@@ -386,17 +386,16 @@ impl Lowerer {
                     })
                     .try_collect()?;
 
+                let names = columns
+                    .iter()
+                    .map(|c| c.as_single().unwrap().clone().unwrap())
+                    .collect_vec();
                 let lit = RelationLiteral {
-                    columns: columns
-                        .iter()
-                        .map(|c| c.as_single().unwrap().clone().unwrap())
-                        .collect_vec(),
+                    columns: names.clone(),
                     rows: elements
                         .into_iter()
                         .map(|row| {
-                            row.kind
-                                .into_tuple()
-                                .unwrap()
+                            order_fields_by_name(row.kind.into_tuple().unwrap(), &names)
                                 .into_iter()
                                 .map(|element| {
                                     element.try_cast(
@@ -1292,4 +1291,20 @@ where
 
         e.with_span(get_span())
     }
+}
+
+/// Fields of a relation literal's row in the order of the relation's columns,
+/// when the row names exactly these columns (`{b = 3, a = 4}` for columns a, b).
+/// Rows that do not are left as written.
+fn order_fields_by_name(fields: Vec<pl::Expr>, names: &[String]) -> Vec<pl::Expr> {
+    let position =
+        |name: &String| (fields.iter()).position(|f| f.alias.as_ref() == Some(name));
+    let Some(order) = names.iter().map(position).collect::<Option<Vec<_>>>() else {
+        return fields;
+    };
+    if fields.len() != names.len() || !order.iter().all_unique() {
+        return fields;
+    }
+    let mut fields = fields.into_iter().map(Some).collect_vec();
+    order.into_iter().map(|i| fields[i].take().unwrap()).collect()
 }
